@@ -202,10 +202,16 @@ func (p *Packet) ReadValue(sample int) int {
 // NewData adds data to the packet, and creates the format and shape TLV items to match.
 func (p *Packet) NewData(data interface{}, dims []int16) error {
 	ndim := len(dims)
+	// The header length is a uint8: the fixed part with the channel offset (24 bytes), a
+	// timestamp (16), the format (8) and the shape (8 per started group of 4 sizes) must fit.
+	if 48+8*(1+ndim/4) > math.MaxUint8 {
+		return fmt.Errorf("cannot store %d dimensions in a packet header", ndim)
+	}
 	p.headerLength = 24
 	if p.timestamp != nil {
 		p.headerLength += 16
 	}
+	var payloadLength int // in bytes; checked against the maximum before it is narrowed to uint16
 	pfmt := new(headPayloadFormat)
 	pfmt.dtype = make([]reflect.Kind, 1)
 	pfmt.endian = binary.LittleEndian
@@ -215,19 +221,19 @@ func (p *Packet) NewData(data interface{}, dims []int16) error {
 		pfmt.rawfmt = "<h"
 		pfmt.dtype[0] = reflect.Int16
 		pfmt.wordlen = 2
-		p.payloadLength = uint16(pfmt.wordlen * len(d))
+		payloadLength = pfmt.wordlen * len(d)
 		p.Data = d
 	case []int32:
 		pfmt.rawfmt = "<i"
 		pfmt.dtype[0] = reflect.Int32
 		pfmt.wordlen = 4
-		p.payloadLength = uint16(pfmt.wordlen * len(d))
+		payloadLength = pfmt.wordlen * len(d)
 		p.Data = d
 	case []int64:
 		pfmt.rawfmt = "<q"
 		pfmt.dtype[0] = reflect.Int64
 		pfmt.wordlen = 8
-		p.payloadLength = uint16(pfmt.wordlen * len(d))
+		payloadLength = pfmt.wordlen * len(d)
 		p.Data = d
 	default:
 		return fmt.Errorf("could not handle Packet.NewData of type %v", reflect.TypeOf(d))
@@ -240,10 +246,11 @@ func (p *Packet) NewData(data interface{}, dims []int16) error {
 		p.shape.Sizes[i] = dims[i]
 	}
 	p.headerLength += 8 * uint8(1+ndim/4)
-	p.packetLength = int(p.headerLength) + int(p.payloadLength)
+	p.packetLength = int(p.headerLength) + payloadLength
 	if p.packetLength > maxPACKETLENGTH {
 		return fmt.Errorf("packet length %d exceeds max of %d", p.packetLength, maxPACKETLENGTH)
 	}
+	p.payloadLength = uint16(payloadLength)
 	p.sequenceNumber++
 	return nil
 }
